@@ -702,6 +702,7 @@ def rules(rep, facts):
     _shape(rep, r4_delimiters, 'C10/R4', facts, a)
     r5_totality(rep, facts, a)
     r9_written_text(rep, facts, a)
+    r10_writer_impls(rep, facts)
     _shape(rep, r7_run_metric, 'C10/R7', facts)
     feats = set(facts.crates.get('toml_edit', {}).get('features', []))
     if 'toml_edit' in facts.crates and {'parse', 'display'} <= feats:
@@ -710,6 +711,7 @@ def rules(rep, facts):
         r2_unescaped(rep, facts, g, a)
         r6_delegation(rep, facts)
         r6b_display_repr(rep, facts)
+        r11_key_display(rep, facts)
         # the reader side of every style: the string parsers accept exactly the ABNF string rules (shared with C01/R10)
         from .rules_c01 import r10_regular_language
         r10_regular_language(rep, g, a, only_prefix='strings::', rid='C10/R8')
@@ -735,3 +737,106 @@ def _witnesses(rep):
 
 def run(tier):
     return run_property(PROP, tier, rules, configs_thorough=['default', 'perf', 'write_nodefault', 'write_alloc', 'edit_display'], extra=_witnesses if tier == 'thorough' else None)
+
+
+def r10_writer_impls(rep, facts):
+    """every impl of the writer traits evaluated on sample values, the text read back by an independent decoder"""
+    import tomllib
+    from .den import Evaluator, Unanalysable, EvalPanic, VecObj
+    from .places import MapObj
+    from .printdrive import PrintInterp
+    R = rep.rule('C10/R10', 'whatever type a string reaches the writer in, it is written as a string: every impl of WriteTomlValue / WriteTomlKey for a text type (str, String, Cow<str>), for a '
+                 'sequence or a map of them, and for bool is evaluated on sample values (bare-looking words, `true`, `123`, `inf`, a date, quotes, a newline, the empty string) with the writes '
+                 'recorded; `v = <text>` resp. `<text> = 1` must be valid TOML that decodes (Python\'s tomllib) to the sample', floor=40)
+    S = ['hello', 'true', '123', 'inf', '1979-05-27', 'two words', 'quote " inside', "it's", '', 'line\nbreak', 'a.b', 'é']
+    TEXT = ('str', 'alloc::string::String', "alloc::borrow::Cow<'_, str>")
+    n = 0
+    for imp in facts.impls:
+        tr = imp.get('trait') or ''
+        if tr not in ('toml_write::value::WriteTomlValue', 'toml_write::key::WriteTomlKey'):
+            continue
+        st = imp.get('self_ty') or ''
+        is_key = tr.endswith('WriteTomlKey')
+        d = facts.impl_method(imp, 'write_toml_key' if is_key else 'write_toml_value')
+        if not d or not facts.has_body(d):
+            continue
+        if st in TEXT:
+            samples = [(s, s) for s in S]
+        elif st == 'bool' and not is_key:
+            samples = [(True, True), (False, False)]
+        elif st in ('[V]', 'alloc::vec::Vec<V>') and not is_key:
+            samples = [(VecObj(list(S[:6])), list(S[:6])), (VecObj([]), [])]
+        elif st.startswith('alloc::collections::btree::map::BTreeMap') and not is_key:
+            samples = [(MapObj([(s, s) for s in S[:8]], sorted_=True), {s: s for s in S[:8]}), (MapObj([], sorted_=True), {})]
+        else:
+            continue
+        b = facts.body(d)
+        for val, want in samples:
+            key = f'{"key" if is_key else "value"} of {st}|{want!r:.40}'
+            try:
+                it = PrintInterp(Evaluator(facts))
+                it.apply_fn(b, [val, ('writer',)])
+                text = it.text()
+            except EvalPanic as ex:
+                rep.bad(R, key, f'`{d}` panics on {want!r:.60}: {ex}', facts.loc(b))
+                continue
+            except (Unanalysable, TypeError, KeyError, IndexError, AttributeError, ValueError) as ex:
+                rep.incomplete(R, key, f'cannot evaluate `{d}` on {want!r:.60}: {type(ex).__name__}: {ex}', facts.loc(b))
+                continue
+            n += 1
+            src = f'{text} = 1\n' if is_key else f'v = {text}\n'
+            try:
+                got = tomllib.loads(src)
+            except tomllib.TOMLDecodeError as ex:
+                rep.bad(R, key, f'`{d}` writes {want!r:.60} as {text!r:.120}, which is not a TOML {"key" if is_key else "value"} ({ex})', facts.loc(b))
+                continue
+            ref = {want: 1} if is_key else {'v': want}
+            rep.check(R, key, got == ref and type(got.get('v', 0)) is type(ref.get('v', 0)), f'{text!r:.60}',
+                      f'`{d}` writes {want!r:.60} as {text!r:.120}, which reads back as {(list(got)[0] if is_key else got.get("v"))!r:.80}', facts.loc(b))
+
+
+def r11_key_display(rep, facts):
+    """the text a key shows (Display for Key, Display for KeyMut) is a key that reads back"""
+    import tomllib
+    from .den import Evaluator, Unanalysable, EvalPanic
+    from .printdrive import PrintInterp
+    R = rep.rule('C10/R11', 'a key shown on its own is a key: Display for Key and Display for KeyMut evaluated on sample keys (bare words, two words, a dot, quotes, the empty key, a newline, '
+                 'non-ASCII) without a stored spelling — `<text> = 1` must decode (Python\'s tomllib) to the key — and with a stored quoted spelling, which must be shown as stored', floor=20)
+    NONE_ = ('ctor', 'core::option::Option::None')
+    dec = lambda: ('struct', 'toml_edit::repr::Decor', {'prefix': NONE_, 'suffix': NONE_})
+
+    def key(name, stored=None):
+        rp = NONE_ if stored is None else ('ctor', 'core::option::Option::Some', (('struct', 'toml_edit::repr::Repr', {'raw_value': ('struct', 'toml_edit::raw_string::RawString', {
+            '0': ('ctor', 'toml_edit::raw_string::RawStringInner::Explicit', (('struct', 'toml_edit::internal_string::InternalString', {'0': stored}),))})}),))
+        return ('struct', 'toml_edit::key::Key', {'key': ('struct', 'toml_edit::internal_string::InternalString', {'0': name}), 'repr': rp, 'leaf_decor': dec(), 'dotted_decor': dec()})
+    S = ['hello', 'two words', '1.5', 'a.b', "it's", 'quote " inside', '', 'line\nbreak', 'é', 'true', '-']
+    for ty, wrap in (('toml_edit::key::Key', lambda k: k), ("toml_edit::key::KeyMut<'_>", lambda k: ('struct', 'toml_edit::key::KeyMut', {'key': k}))):
+        try:
+            d = facts.method('core::fmt::Display', ty, 'fmt')
+        except AnalysisIncomplete:
+            d = None
+        if not d or not facts.has_body(d):
+            rep.incomplete(R, f'{ty}|Display', 'not found')
+            continue
+        b = facts.body(d)
+        for name, stored in [(s, None) for s in S] + [('a', "'a'"), ('b c', '"b c"'), ('x', '"\\u0078"')]:
+            kk = f'{last_seg(ty.split("<")[0])}|{name!r}' + (f' stored as {stored}' if stored else '')
+            try:
+                it = PrintInterp(Evaluator(facts))
+                it.apply_fn(b, [wrap(key(name, stored)), ('formatter',)])
+                text = it.text()
+            except EvalPanic as ex:
+                rep.bad(R, kk, f'`{d}` panics on the key {name!r}: {ex}', facts.loc(b))
+                continue
+            except (Unanalysable, TypeError, KeyError, IndexError, AttributeError, ValueError) as ex:
+                rep.incomplete(R, kk, f'cannot evaluate `{d}` on the key {name!r}: {type(ex).__name__}: {ex}', facts.loc(b))
+                continue
+            if stored is not None:
+                rep.check(R, kk, text == stored, f'{text!r}', f'`{d}` shows the key {name!r}, stored as {stored}, as {text!r}', facts.loc(b))
+                continue
+            try:
+                got = tomllib.loads(f'{text} = 1\n')
+            except tomllib.TOMLDecodeError as ex:
+                rep.bad(R, kk, f'`{d}` shows the key {name!r} as {text!r:.80}, which is not a TOML key ({ex})', facts.loc(b))
+                continue
+            rep.check(R, kk, got == {name: 1}, f'{text!r}', f'`{d}` shows the key {name!r} as {text!r:.80}, which reads back as {list(got)!r:.80}', facts.loc(b))
